@@ -36,34 +36,43 @@
       C03_data_or_errors          no (or null) data => at least one error
       C03_parsed_positions_distinct   the parser's half of C01's hypothesis, across the conversion
       C03_pipeline_order_independent  the response does not depend on Go's map iteration order
+      C03_pipeline_response       ... a response, for every text with positions below 2^24 / 2^32 (round 5)
 
-    WHAT IS PARTIAL, and why.
-    - C01's totality theorem needs [doc_ok] ("what validation guarantees", as an execution over
-      types).  That the validator model establishes it is NOT proved (C04 has not proved
-      [validate_ok_doc_ok], see the header of Properties/C01.v).  The composed model therefore
-      EVALUATES [doc_ok] (and the size half of [doc_positions_okb]) and answers
-      [PContractBroken] when it fails; the totality theorems hold unconditionally because of that
-      check, and the correspondence check reports [PContractBroken] as an oracle failure on every
-      case (so the gap is tested on every run, not assumed).  Half of the obligation IS proved
-      ([C03_validated_type_conditions_composite]: type conditions of an accepted text are composite,
-      so the executor's panic("unexpected fragment type") is unreachable); the other half (typing of
-      the collected fields, [validate_establishes_sels_ok], spelled out below; the root type too is proved) is the explicit
-      premise of [C03_validate_establishes_doc_ok_partial] / [C03_pipeline_response_partial]: with
-      it, every request with evaluable conditions gets a response.
-    - [doc_ok] contains C01's hypothesis that every @skip/@include condition has a boolean value.
+    WHAT WAS PARTIAL, and how it was closed (round 5).
+    - C01's totality theorem needs [doc_ok_nodirs] ("what validation guarantees", as an execution
+      over types: [doc_ok] without the conjunct "every @skip/@include condition has a boolean
+      value").  The composed model EVALUATES it (and the size half of [doc_positions_okb]) and
+      answers [PContractBroken] when it fails; the totality theorems hold unconditionally because
+      of that check, and the correspondence check reports [PContractBroken] as an oracle failure.
+      Since round 5 that the validator model establishes it is PROVED:
+      [C03_validate_establishes_invariant] (Pipe/MergeBridge.v, Pipe/InvariantBridge.v) gives the
+      n-free invariant Q of C01_doc_ok_nodirs_acyclic from C04's theorems — fields defined on every
+      possible object type (C04_defined_on_possible), merge soundness of the validator as it is
+      (C04_accepted_merge_sound, with its unfolding lemma), 5.5.1.1, valid_root — across both
+      conversions; [C03_validate_establishes_doc_ok] and [C03_pipeline_response] follow without
+      premise: every request whose positions fit line 2^24 / column 2^32 gets a response, and
+      [PContractBroken CDocOk] is unreachable.  Hypotheses on the two encodings of the schema, all
+      decidable and evaluated by the check on every composed case: [schemas_agree VS ES],
+      [es_wf ES] (type names are map keys, union members and root types are object types, field
+      types are output types, an implementing field is covariant with the interface's), C04's
+      [schema_ok], [schema_impls_ok], [schema_ifaces_ok] ([vschema_wf]).
+    - C01's [doc_ok] contains the hypothesis that every @skip/@include condition has a boolean value.
       A validated request can violate it (a nullable Boolean variable with a default, given null:
-      the directive's argument cannot be coerced, the selection is left out with an error).  Such
-      requests get [PUnevaluable r]: the executor model's answer, compared by the check, with no
-      theorem about it ([request_evaluable] is the hypothesis of [C03_pipeline_total]).
-    - Outside the composition: Subscribe and asynchronous
-      resolvers (C02), the serialiser itself (encoding/json; [json_finite] is the condition under
+      the directive's argument cannot be coerced, the selection is left out with an error).  Since
+      round 5 the composed model checks C01's [doc_ok_nodirs] and C01's dirs-free theorems
+      (C01_exec_total_nodirs, C01_exec_data_finite_nodirs, C01_doc_ok_nodirs_acyclic) cover such
+      requests: there is no [PUnevaluable] outcome and no [request_evaluable] hypothesis any more.
+      Only [C03_async_resolvers_same_data] keeps [dirs_evaluable] as a hypothesis (C02's bridge
+      theorem is stated under the full [doc_ok]).
+    - Outside the composition: the serialiser itself (encoding/json; [json_finite] is the condition under
       which it accepts a number), stack depth of the Go runtime.  For these the glue theorems of
       round 1 (…_partial below) and the hostile stream remain the evidence. *)
 From Coq Require Import List NArith.
 From ApiFu Require Import Base.Sexp.
 From ApiFu Require Syn.Ast Syn.ParserModel Syn.FrontEnd Vld.Ast Vld.ValidatorModel Vld.ProofsCommon Val.Values ExeA.ArgData ExeA.ArgArgs ExeA.ArgModel ExeA.ArgSpec ExeA.ArgHyps.
-From ApiFu Require Vld.MemoEquiv.
-From ApiFu Require Import Pipe.PipelineModel Pipe.PipelineProofs Pipe.Convert Pipe.Compose Pipe.SchemaAgree Pipe.PositionsProofs Pipe.FieldPositions Pipe.ComposeProofs Pipe.CondsProofs Pipe.TypingProofs Pipe.CostCompose Pipe.CostComposeProofs.
+From ApiFu Require Vld.MemoEquiv Vld.ProofsSubscription.
+From ApiFu Require Import Pipe.PipelineModel Pipe.PipelineProofs Pipe.Convert Pipe.Compose Pipe.SchemaAgree Pipe.PositionsProofs Pipe.FieldPositions Pipe.ComposeProofs Pipe.CondsProofs Pipe.TypingProofs Pipe.CostCompose Pipe.CostComposeProofs Pipe.AcyclicProofs Pipe.InvariantProofs Pipe.SetPositions Pipe.MergeBridge Pipe.InvariantBridge Pipe.SubscribeCompose Pipe.SubscribeProofs Pipe.AsyncProofs.
+From ApiFu Require Fut.Plan Fut.ExecAsync Fut.AsyncRun Fut.FutSpec Fut.FutProofs Fut.BridgeC01.
 Import ListNotations.
 
 (** ** the composed model, from bytes *)
@@ -94,27 +103,23 @@ Theorem C03_pipeline_never_panics : forall pi, Vld.ProofsCommon.order_ok pi -> f
   match pipeline_order pi VS F ES bs opname raw W with PPanic _ | POutOfFuel _ => False | _ => True end.
 Proof. exact pipeline_never_panics_cases. Qed.
 
-(** ... and when every @skip/@include condition has a boolean value the outcome is a response
-    (syntax errors / validation errors / data and execution errors / the variable-coercion error),
-    or the report that a stage contract does not hold *)
+(** ... and the outcome is a response (syntax errors / validation errors / data and execution
+    errors / the variable-coercion error), or the report that a stage contract does not hold —
+    whatever the variables: a @skip/@include condition without a boolean value is covered
+    (C01_exec_total_nodirs) *)
 Theorem C03_pipeline_total : forall pi, Vld.ProofsCommon.order_ok pi -> forall VS F ES bs opname raw W,
-  schema_accepted ES = true -> request_evaluable pi VS F ES bs opname raw ->
+  schema_accepted ES = true ->
   is_response (pipeline_order pi VS F ES bs opname raw W) = true \/
   contract_broken (pipeline_order pi VS F ES bs opname raw W) = true.
 Proof. exact pipeline_total. Qed.
 
-(** the complete classification: a response with data or errors and serialisable data; a broken
-    contract; or conditions without boolean value *)
+(** the complete classification: a response with data or errors and serialisable data, or a broken
+    contract *)
 Theorem C03_pipeline_cases : forall pi, Vld.ProofsCommon.order_ok pi -> forall VS F ES bs opname raw W,
   schema_accepted ES = true ->
   let r := pipeline_order pi VS F ES bs opname raw W in
   (is_response r = true /\ data_or_errors_p r = true /\ serialisable_p r = true) \/
-  contract_broken r = true \/
-  (unevaluable r = true /\
-   exists d o vv, parse_and_validate_order pi VS F bs = FAccepted d /\
-                  ExeA.ArgModel.get_operation (exe_of_syn d) opname = ExeA.ArgModel.GOp o /\
-                  ExeA.ArgModel.coerce_request_vars ES o raw = Val.Values.Ok vv /\
-                  ExeA.ArgHyps.dirs_evaluable (ExeA.ArgData.doc_of (exe_of_syn d) o vv) (ExeA.ArgArgs.env_of_vars vv) = false).
+  contract_broken r = true.
 Proof. exact pipeline_cases. Qed.
 
 (** every response's data has a JSON form: no NaN, no infinity anywhere in it (C01_exec_data_finite
@@ -156,16 +161,24 @@ Proof. exact pipeline_order_independent. Qed.
 
 (** ** the open obligation [validate accepted => doc_ok], half of it proved.
 
-    [doc_ok ES D E fuel n] = [conds_ok ES D E] && [doc_typed ES D E]:
-    - [conds_ok]: every @skip/@include condition has a boolean value and every type condition (of a
-      fragment definition or an inline fragment, at any depth) names a composite type — so that
-      doesFragmentTypeApply never reaches panic("unexpected fragment type");
+    [doc_ok_nodirs ES D E fuel n] = [conds_gen ES D E false] && [doc_typed ES D E]:
+    - [conds_gen _ _ _ false]: every type condition (of a fragment definition or an inline fragment,
+      at any depth) names a composite type — so that doesFragmentTypeApply never reaches
+      panic("unexpected fragment type"); ([conds_ok] = [conds_gen _ _ _ true] adds: every
+      @skip/@include condition has a boolean value);
     - [doc_typed]: whatever object type is reached, every collected field is defined on it and has
       an output type (so that completeValue never reaches panic("unexpected field type")).
-    PROVED: a text accepted by the composed front half satisfies [conds_ok], for every selectable
-    operation, given evaluable conditions and schema encodings that agree (C04's rule theorem for
-    5.5.1 across [vld_of_syn] / [exe_of_syn] / [schemas_agree]). *)
+    PROVED: a text accepted by the composed front half satisfies [conds_gen _ _ _ false], for every
+    selectable operation and ALL variable values, given schema encodings that agree (C04's rule
+    theorem for 5.5.1 across [vld_of_syn] / [exe_of_syn] / [schemas_agree]); and [conds_ok] when
+    the conditions are evaluable. *)
 Theorem C03_validated_type_conditions_composite : forall pi VS F ES bs d opname o vv E,
+  Vld.ProofsCommon.order_ok pi -> schemas_agree VS ES = true ->
+  parse_and_validate_order pi VS F bs = FAccepted d ->
+  ExeA.ArgModel.get_operation (exe_of_syn d) opname = ExeA.ArgModel.GOp o ->
+  ExeA.ArgSpec.conds_gen ES (ExeA.ArgData.doc_of (exe_of_syn d) o vv) E false = true.
+Proof. exact accepted_conds_gen. Qed.
+Theorem C03_validated_conditions_ok_when_evaluable : forall pi VS F ES bs d opname o vv E,
   Vld.ProofsCommon.order_ok pi -> schemas_agree VS ES = true ->
   parse_and_validate_order pi VS F bs = FAccepted d ->
   ExeA.ArgModel.get_operation (exe_of_syn d) opname = ExeA.ArgModel.GOp o ->
@@ -202,37 +215,82 @@ Theorem C03_argument_coercion_never_unsupported : forall ES D ot f,
   cost_schema_accepted ES = true -> ExeA.ArgSpec.args_total ES D ot f = true.
 Proof. exact args_total_closed. Qed.
 
-(** NOT PROVED — the remaining obligation, exactly [sels_ok]: conjuncts (d) - (i) of the list in
-    the header of Properties/C01.v.
-    [validate_establishes_sels_ok pi VS F ES] :=
+(** PROVED (round 4): acyclicity, transported.  An accepted text has no fragment that reaches itself
+    in the executor's encoding, for every operation and all variable values (C04's silent cycle rule
+    in the Spec's formulation across both conversions) — the hypothesis of C01_doc_ok_acyclic /
+    C01_acyclic_levels: the fuel and level part of [doc_ok] (conjuncts (d) and the depth of (i)) is
+    thereby discharged *)
+Theorem C03_accepted_acyclic : forall pi VS F bs d o vv,
+  Vld.ProofsCommon.order_ok pi ->
+  parse_and_validate_order pi VS F bs = FAccepted d ->
+  ExeA.ArgHyps.acyclic_frags (ExeA.ArgData.doc_of (exe_of_syn d) o vv).
+Proof. exact accepted_acyclic. Qed.
+
+(** the other positional hypothesis of C04's theorems about addFieldSelections: the selection sets of
+    a parsed text open at pairwise distinct positions (the opening braces are tokens the tree
+    records, C06's [recorded_layout]; distinct tokens start at distinct positions, C07) *)
+Theorem C03_parsed_set_positions_distinct : forall bs d es,
+  Syn.FrontEnd.parse_document_bytes bs = Syn.ParserModel.Out (Some d) es ->
+  Vld.ProofsSubscription.doc_set_positions_distinct (vld_of_syn d).
+Proof. exact parsed_set_positions_distinct. Qed.
+
+(** PROVED (round 5) — what was the remaining obligation: the n-free invariant Q of
+    C01_doc_ok_nodirs_acyclic (Pipe/InvariantProofs.v):
+    [validate_establishes_invariant pi VS F ES] :=
       forall bs d opname o vv rt,
         parse_and_validate_order pi VS F bs = FAccepted d ->
         get_operation (exe_of_syn d) opname = GOp o ->
         let D := doc_of (exe_of_syn d) o vv in  let E := env_of_vars vv in
-        dirs_evaluable D E = true -> s_root_type ES (op_kind D) = Some rt ->
-        sels_ok ES D E (default_fuel D) (default_fuel D) rt (op_sels D) = true.
-    Status of its conjuncts: (d) fuel and (e) non-empty groups are C01's own lemmas
-    (C01_collect_fuel_sufficient); (g) [args_total] is proved above; (f) needs the step from C04's [fields_defined] (fields defined on the static parent type:
-    C04_accepted_doc_ok_conjuncts) to every possible object type, (h) output types is schema
-    construction; (i), the recursion into the MERGED sub-selections of a group, types them against
-    the FIRST field node's type and therefore needs 5.3.2 (fields of one response key have the same
-    name and shape), whose model-vs-Spec equivalence C04 has not proved.
-    The composed model evaluates [doc_ok] on every run instead (outcome [PContractBroken CDocOk],
-    an oracle failure of the check).  With it, [validate_establishes_doc_ok] follows ... *)
-Theorem C03_validate_establishes_doc_ok_partial : forall pi VS F ES,
-  Vld.ProofsCommon.order_ok pi -> schemas_agree VS ES = true ->
-  validate_establishes_sels_ok pi VS F ES -> validate_establishes_doc_ok pi VS F ES.
-Proof. exact doc_ok_from_sels_ok. Qed.
+        s_root_type ES (op_kind D) = Some rt ->
+        exists Q, Q rt (op_sels D) /\ fields_defined_on ES D E Q /\ merge_sound ES D E Q.
+    [fields_defined_on] — THE POSSIBLE-OBJECT-TYPE STEP: for [Q ot sels], CollectFields(ot, sels) is
+      defined and the first field node of every group is __typename, a meta-field of the query
+      root, or a field defined ON [ot] with an output type;
+    [merge_sound] — MERGE SOUNDNESS (rule 5.3.2): for a group of a composite field type the MERGED
+      sub-selections of all its field nodes satisfy [Q] again for every possible object type of the
+      FIRST node's field type.
+    The witness is [MergeBridge.Qv ot sels]: [ot] is an object type and [sels] is the concatenation
+    of selection sets of the parsed document, each written beneath a scope (TypeInfo's) of which
+    [ot] is a possible type, any two of them merge-checked together by the validator
+    (addFieldSelections of one, then of the other, gives a map that is [MergeOK]).
+    - the step from CollectFields of the executor (type conditions evaluated against [ot],
+      @skip/@include, visited fragments) to the validator's addFieldSelections (everything, once):
+      what the former collects the latter files, with the parent type and position of the set it
+      is written in (Pipe/CollectEntries.v: C04_collect_complete strengthened from keys to entries);
+    - two nodes under one response key whose parent types both have [ot] as a possible type
+      [may_overlap]: C04_merge_ok_unfold gives the same field name and the merge-checked pair of
+      sub-selection sets;
+    - the possible object types of the field's type on [ot] are possible types of the field's type
+      on the parent type of the selection set: covariance of implementing fields ([es_wf]). *)
+Theorem C03_validate_establishes_invariant : forall pi VS F ES,
+  Vld.ProofsCommon.order_ok pi -> schemas_agree VS ES = true -> es_wf ES = true -> vschema_wf VS = true ->
+  validate_establishes_invariant pi VS F ES.
+Proof. exact validate_establishes_invariant_proved. Qed.
 
-(** ... and every request with evaluable conditions whose text keeps positions below line 2^24 /
-    column 2^32 ([text_positions_small]) gets a response: no broken contract is left *)
-Theorem C03_pipeline_response_partial : forall pi VS F ES bs opname raw W,
+(** hence an accepted text satisfies C01's [doc_ok_nodirs] with the fuel and level bound the composed
+    model evaluates, for every selectable operation and all variable values: the outcome
+    [PContractBroken CDocOk] is unreachable *)
+Theorem C03_validate_establishes_doc_ok : forall pi VS F ES,
+  Vld.ProofsCommon.order_ok pi -> schemas_agree VS ES = true -> cost_schema_accepted ES = true ->
+  es_wf ES = true -> vschema_wf VS = true ->
+  validate_establishes_doc_ok pi VS F ES.
+Proof. exact validate_establishes_doc_ok_proved. Qed.
+
+(** the premise is exactly as strong as needed: [doc_ok_nodirs] itself yields such a Q *)
+Theorem C03_invariant_from_doc_ok : forall ES D E n rt,
+  ExeA.ArgSpec.s_root_type ES (ExeA.ArgData.op_kind D) = Some rt ->
+  ExeA.ArgSpec.doc_ok_nodirs ES D E (ExeA.ArgModel.default_fuel D) n = true ->
+  exists Q, Q rt (ExeA.ArgData.op_sels D) /\ fields_defined_on ES D E Q /\ merge_sound ES D E Q.
+Proof. exact invariant_from_doc_ok. Qed.
+
+(** ... and every request whose text keeps positions below line 2^24 / column 2^32
+    ([text_positions_small]) gets a response: no broken contract is left *)
+Theorem C03_pipeline_response : forall pi VS F ES bs opname raw W,
   Vld.ProofsCommon.order_ok pi ->
-  schema_accepted ES = true -> schemas_agree VS ES = true ->
-  validate_establishes_sels_ok pi VS F ES -> text_positions_small bs ->
-  request_evaluable pi VS F ES bs opname raw ->
+  schema_accepted ES = true -> cost_schema_accepted ES = true -> schemas_agree VS ES = true ->
+  es_wf ES = true -> vschema_wf VS = true -> text_positions_small bs ->
   is_response (pipeline_order pi VS F ES bs opname raw W) = true.
-Proof. exact pipeline_response_if_sels_ok. Qed.
+Proof. exact pipeline_response. Qed.
 
 (** ** the cost rule inside the composition.
     [parse_validate_cost pi VS F ES bs opname raw r max] (Pipe/CostCompose.v) is
@@ -249,6 +307,52 @@ Theorem C03_validate_with_cost_never_crashes : forall pi VS F ES bs opname raw r
   Vld.ProofsCommon.order_ok pi -> cost_schema_accepted ES = true ->
   parse_validate_cost pi VS F ES bs opname raw r max <> CCrashed.
 Proof. exact parse_validate_cost_never_crashes. Qed.
+
+(** ** graphql.Subscribe inside the composition.
+    [subscribe_order pi VS F ES bs opname raw W] (Pipe/SubscribeCompose.v) is graphql.Subscribe on the
+    bytes: the front half, GetOperation, C05's variable coercion, then executor.subscribe — the
+    operation must be a subscription, the schema must have a subscription object type,
+    collectFields (C01's [collect_impl]) must yield exactly one response key whose field is defined,
+    its arguments are coerced (C05), and the source resolver answers from the root value [W]: an
+    error (path = the response key) or the source value.  Outcome: syntax errors / validation errors
+    / exactly one error / the source.  No stage panics or runs out of fuel (in particular
+    collectFields never reaches panic("unexpected fragment type") and [Items()[0]] is only taken of
+    a one-element set).  The execution of ONE event is graphql.Execute with the event as root
+    value: [pipeline_order] above (an operation of kind subscription runs on the subscription root
+    type). *)
+Theorem C03_subscribe_never_crashes : forall pi VS F ES bs opname raw W,
+  Vld.ProofsCommon.order_ok pi ->
+  schema_accepted ES = true -> cost_schema_accepted ES = true -> schemas_agree VS ES = true ->
+  match subscribe_order pi VS F ES bs opname raw W with SubPanic _ | SubOutOfFuel _ => False | _ => True end.
+Proof. exact subscribe_never_crashes. Qed.
+
+(** ** asynchronous resolvers inside the composition.
+    Whenever the composed model executes a request ([PExecuted data errs]: operation selected,
+    variables coerced, contract checks passed), then for EVERY choice of resolvers that answer
+    through promises ([root]: any plan with the same outcomes as the one C01's world denotes) and
+    EVERY fair idle handler [sigma], the asynchronous executor model of C02 (executor.go +
+    future.go) finishes — it is never stuck and never out of fuel with one idle round per
+    promise — with the same data, and its errors conform to the plan (exactly one admissible
+    error for every visible failure-null).  C02_every_schedule_yields_ExecuteRequest_response
+    through the composition: its hypotheses are the dynamic checks of the composed model, plus
+    [dirs_evaluable] (every @skip/@include condition has a boolean value: C02's bridge theorem is
+    stated under C01's full [doc_ok]). *)
+Theorem C03_async_resolvers_same_data : forall pi VS F ES bs opname raw W d o vv data errs
+    (code : ExeA.ArgData.json -> BinNums.Z) md root sigma fuelr jfuel,
+  schema_accepted ES = true ->
+  parse_and_validate_order pi VS F bs = FAccepted d ->
+  ExeA.ArgModel.get_operation (exe_of_syn d) opname = ExeA.ArgModel.GOp o ->
+  ExeA.ArgModel.coerce_request_vars ES o raw = Val.Values.Ok vv ->
+  pipeline_order pi VS F ES bs opname raw W = PExecuted data errs ->
+  let D := ExeA.ArgData.doc_of (exe_of_syn d) o vv in
+  let E := ExeA.ArgArgs.env_of_vars vv in
+  ExeA.ArgHyps.dirs_evaluable D E = true ->
+  Fut.FutSpec.same_outcomes root (Fut.BridgeC01.plan_of code ES D E (ExeA.ArgModel.default_fuel D) W) ->
+  Fut.AsyncRun.fair sigma -> (Fut.Plan.count_async root <= fuelr)%nat -> (Fut.FutProofs.resp_depth root < jfuel)%nat ->
+  exists r, Fut.ExecAsync.run Fut.ExecAsync.fixed_flags sigma md fuelr jfuel root = Fut.ExecAsync.Done r /\
+            Fut.ExecAsync.r_data r = Fut.BridgeC01.tr_data code data /\
+            Fut.FutSpec.conforms root (Fut.ExecAsync.r_data r) (Fut.ExecAsync.r_errors r).
+Proof. exact async_pipeline_total. Qed.
 
 (** ** the glue of graphql.go over observed stage verdicts (round 1; still what covers Subscribe,
     the cost rule, argument coercion and everything else outside the composed model) *)
@@ -282,13 +386,20 @@ Print Assumptions C03_data_or_errors.
 Print Assumptions C03_parsed_positions_distinct.
 Print Assumptions C03_pipeline_order_independent.
 Print Assumptions C03_validated_type_conditions_composite.
+Print Assumptions C03_validated_conditions_ok_when_evaluable.
 Print Assumptions C03_composite_condition_never_unexpected.
 Print Assumptions C03_validated_root_type_exists.
 Print Assumptions C03_parsed_field_positions_distinct.
 Print Assumptions C03_argument_coercion_never_unsupported.
-Print Assumptions C03_validate_establishes_doc_ok_partial.
-Print Assumptions C03_pipeline_response_partial.
+Print Assumptions C03_accepted_acyclic.
+Print Assumptions C03_parsed_set_positions_distinct.
+Print Assumptions C03_validate_establishes_invariant.
+Print Assumptions C03_validate_establishes_doc_ok.
+Print Assumptions C03_invariant_from_doc_ok.
+Print Assumptions C03_pipeline_response.
 Print Assumptions C03_validate_with_cost_never_crashes.
+Print Assumptions C03_subscribe_never_crashes.
+Print Assumptions C03_async_resolvers_same_data.
 Print Assumptions C03_execute_total_partial.
 Print Assumptions C03_execute_data_or_errors_partial.
 Print Assumptions C03_subscribe_total_partial.
